@@ -19,6 +19,21 @@
 
 let sp = Printf.sprintf
 
+(* the platform parameter of ModelPlat.v: signed plain char (compilers' default on x86-64) or unsigned plain char
+   (-funsigned-char; the harness variant `uchar` runs this driver with C15_PLAIN_CHAR=unsigned, the compile-time
+   configurations `gcc-uchar` / `clang-uchar` pass it through the configuration name) *)
+let plat : platform ref = ref x86_64_default
+let () = match Sys.getenv_opt "C15_PLAIN_CHAR" with Some "unsigned" -> plat := unsigned_char_abi | _ -> ()
+let rec mentions_char = function
+  | Arith AChar -> true
+  | Enum (_, AChar, _) -> true
+  | Ptr u | LRef u | RRef u | Arr (u, _) | Cv (_, _, u) | MemPtr (_, u) -> mentions_char u
+  | Fn (r, args, _, _, _, _, _) -> List.exists mentions_char (r :: args)
+  | _ -> false
+let rec perms = function
+  | [] -> [ [] ]
+  | l -> List.concat (List.mapi (fun i x -> List.map (fun q -> x :: q) (perms (List.filteri (fun j _ -> j <> i) l))) l)
+
 (* ------------------------------------------------------------------ names *)
 let arith_name = function
   | ABool -> "bool" | AChar -> "char" | ASChar -> "signed char" | AUChar -> "unsigned char"
@@ -269,8 +284,8 @@ let uvals : uval list =
     ub "is_member_pointer" is_member_pointer_m std_is_member_pointer;
     ub "is_const" (k0 is_const_m) std_is_const;
     ub "is_volatile" (k0 is_volatile_m) std_is_volatile;
-    ub "is_signed" is_signed_m std_is_signed;
-    ub "is_unsigned" is_unsigned_m std_is_unsigned;
+    ub "is_signed" (fun k t -> is_signed_mp !plat k t) (fun t -> std_is_signed_p !plat t);
+    ub "is_unsigned" (fun k t -> is_unsigned_mp !plat k t) (fun t -> std_is_unsigned_p !plat t);
     ub "is_bounded_array" (k0 is_bounded_array_m) std_is_bounded_array;
     ub "is_unbounded_array" (k0 is_unbounded_array_m) std_is_unbounded_array;
     ub "is_scoped_enum" ~stdnm:"" (k0 is_scoped_enum_m) std_is_scoped_enum;
@@ -288,8 +303,8 @@ let uvals : uval list =
 let uconcepts : uval list =
   [ ub "integral" integral_c_m std_is_integral;
     ub "floating_point" (fun _ t -> floating_point_c_m t) std_is_floating_point;
-    ub "signed_integral" signed_integral_c_m (fun t -> std_is_integral t && std_is_signed t);
-    ub "unsigned_integral" unsigned_integral_c_m (fun t -> std_is_integral t && not (std_is_signed t));
+    ub "signed_integral" (fun k t -> signed_integral_c_mp !plat k t) (fun t -> std_is_integral t && std_is_signed_p !plat t);
+    ub "unsigned_integral" (fun k t -> unsigned_integral_c_mp !plat k t) (fun t -> std_is_integral t && not (std_is_signed_p !plat t));
     ub "referenceable" ~stdnm:"" (fun _ t -> referenceable_c_m t) (fun t -> not (std_is_void t));
     ub "builtin_integer" ~stdnm:"" (fun _ t -> is_builtin_integer_m t)
       (fun t -> std_is_standard_signed_integer t || std_is_standard_unsigned_integer t);
@@ -346,6 +361,7 @@ let prop_concepts_binary : string list =
   [ "convertible_to"; "assignable_from"; "constructible_from"; "derived_from"; "common_with";
     "common_reference_with"; "invocable"; "regular_invocable"; "predicate" ]
 
+let lval_s0 = function LB b -> if b then "true" else "false" | LI z -> str_of_z z | LF (m, e) -> str_of_z m ^ "*2^" ^ str_of_z e | LInf -> "inf" | LNaN _ -> "nan"
 (* ------------------------------------------------------------------ emission *)
 let out = Buffer.create (1 lsl 20)
 let line parts = Buffer.add_string out (String.concat "\t" parts); Buffer.add_char out '\n'
@@ -356,6 +372,12 @@ let is_complete_object (t : cty) =
   std_is_object t && not (std_is_unbounded_array t)
 
 let emit tier cfgs seed =
+  (* `<compiler>-uchar`: the same compiler with -funsigned-char; only the obligations that mention plain char *)
+  let nc = String.length cfgs in
+  let uchar = nc > 6 && String.sub cfgs (nc - 6) 6 = "-uchar" in
+  let cfgs = if uchar then String.sub cfgs 0 (nc - 6) else cfgs in
+  if uchar then plat := unsigned_char_abi;
+  let sel t = (not uchar) || mentions_char t in
   let k = cfg_of cfgs in
   let types = zoo tier seed in
   (* prelude + declarations + aliases *)
@@ -456,7 +478,7 @@ let emit tier cfgs seed =
     if is_complete_object t && not (std_is_array t) then
       obl "prop" "is_implicit_default_constructible" key
         (sp "etl::is_implicit_default_constructible_v<%s> == (std::is_default_constructible_v<%s> && z::z_implicit_default<%s>)" r r r))
-    types;
+    (List.filter sel types);
   (* ---- binary traits: ordered pairs over a core set *)
   let pair_core =
     let want = [ Void; Nullptr; int_; Arith AChar; Arith ABool; Arith ADouble; Arith AULong; Arith AUInt;
@@ -473,7 +495,7 @@ let emit tier cfgs seed =
     (* quick tier: about half of the core set, rotating with the seed (all ordered pairs of the rest) *)
     let want = if tier = "quick" then List.filteri (fun i _ -> i < 6 || i mod 2 = seed mod 2) want else want in
     List.filter (fun t -> Hashtbl.mem idx (cxx t)) want in
-  let pairs = List.concat_map (fun a -> List.map (fun b -> (a, b)) pair_core) pair_core in
+  let pairs = List.filter (fun (a, b) -> sel a || sel b) (List.concat_map (fun a -> List.map (fun b -> (a, b)) pair_core) pair_core) in
   List.iter (fun (a, b) ->
     let key = cxx a ^ " ; " ^ cxx b in
     let ra = tref a and rb = tref b in
@@ -524,6 +546,175 @@ let emit tier cfgs seed =
       (sp "etl::common_with<%s, %s> == (std::is_reference_v<%s> && std::is_reference_v<%s> && std::is_same_v<std::remove_reference_t<%s>, std::remove_reference_t<%s>> && std::is_same_v<std::remove_reference_t<%s>, std::decay_t<%s>> && std::common_with<%s, %s>)" ra rb ra rb ra rb ra ra ra rb);
     obl "prop" "concept weakly_equality_comparable_with" key (sp "etl::weakly_equality_comparable_with<%s, %s> == std::__detail::__weakly_eq_cmp_with<%s, %s>" ra rb ra rb))
     pairs;
+  (* ---- numeric_limits VALUES at compile time, integer types x cv: etl == extracted model (for the configuration's
+          platform), std == extracted spec, etl == std, and the relations between the members that hold on every
+          platform (lowest() <= min() <= max(), is_signed == (lowest() < 0) == is_signed_v<T>); the run-time legs
+          print the same members, this repeats them under every compile-time configuration (-funsigned-char) *)
+  let zlit z =
+    let s = str_of_z z in
+    if s = "-9223372036854775808" then "(-9223372036854775807LL - 1)"
+    else if Big.compare (big_of_z z) (Big.of_string "9223372036854775807") > 0 then s ^ "ULL" else s ^ "LL" in
+  let nl_members = [ "min", Lmin, true; "max", Lmax, true; "lowest", Llowest, true; "digits", Ldigits, false;
+                     "digits10", Ldigits10, false; "max_digits10", Lmax_digits10, false; "is_signed", Lis_signed, false;
+                     "is_modulo", Lis_modulo, false; "is_integer", Lis_integer, false; "is_exact", Lis_exact, false;
+                     "is_bounded", Lis_bounded, false; "radix", Lradix, false; "is_specialized", Lis_specialized, false ] in
+  List.iter (fun a ->
+      if not (is_float_a a) then
+        List.iter (fun cvs ->
+            let t = arith_name a ^ cvs in
+            let one ns v (nm, _, isfn) =
+              let e = sp "%s::numeric_limits<%s>::%s%s" ns t nm (if isfn then "()" else "") in
+              match v with
+              | LB b -> Some (sp "%s == %s" e (bs b))
+              | LI z -> Some (sp "static_cast<__int128>(%s) == static_cast<__int128>(%s)" e (zlit z))
+              | _ -> None in
+            let conj l = String.concat " && " (List.filter_map (fun x -> x) l) in
+            obl "corr" "numeric_limits values (compile time)" t
+              (conj (List.map (fun ((_, m, _) as d) -> one "etl" (limits_mp !plat a m) d) nl_members));
+            obl "specval" "numeric_limits values (compile time)" t
+              (conj (List.map (fun ((_, m, _) as d) -> match limits_spec_p !plat a m with Some v -> one "std" v d | None -> None) nl_members));
+            List.iter (fun (nm, m, _) ->
+                match limits_spec_p !plat a m with
+                | Some v when v <> limits_mp !plat a m -> line [ "M"; "numeric_limits " ^ nm; t; lval_s0 (limits_mp !plat a m); lval_s0 v ]
+                | _ -> ()) nl_members;
+            let e nm = sp "etl::numeric_limits<%s>::%s" t nm and s_ nm = sp "std::numeric_limits<%s>::%s" t nm in
+            obl "prop" "numeric_limits values (compile time)" t
+              (sp "%s == %s && %s == %s && %s == %s && %s == %s && %s == %s && %s == %s && %s == %s && %s <= %s && %s <= %s && %s == (%s < 0) && %s == etl::is_signed_v<%s> && %s == std::is_signed_v<%s> && %s == (static_cast<%s>(-1) < static_cast<%s>(0)) && etl::is_unsigned_v<%s> == std::is_unsigned_v<%s> && etl::signed_integral<%s> == std::signed_integral<%s> && etl::unsigned_integral<%s> == std::unsigned_integral<%s>"
+                 (e "min()") (s_ "min()") (e "max()") (s_ "max()") (e "lowest()") (s_ "lowest()") (e "digits") (s_ "digits")
+                 (e "digits10") (s_ "digits10") (e "is_signed") (s_ "is_signed") (e "is_modulo") (s_ "is_modulo")
+                 (e "lowest()") (e "min()") (e "min()") (e "max()") (e "is_signed") (e "lowest()")
+                 (e "is_signed") t (e "is_signed") t (e "is_signed") (arith_name a) (arith_name a) t t t t t t))
+          [ ""; " const"; " volatile"; " const volatile" ])
+    (if uchar then [ AChar; ASChar; AUChar; AWChar; AChar8; AChar16; AChar32 ] else all_arith);
+  (* make_signed / make_unsigned of the character types do not depend on the signedness of plain char *)
+  List.iter (fun (x, ms, mu) ->
+      obl "prop" "make_signed / make_unsigned (character types)" x
+        (sp "std::is_same_v<etl::make_signed_t<%s>, %s> && std::is_same_v<etl::make_unsigned_t<%s>, %s> && std::is_same_v<std::make_signed_t<%s>, %s> && std::is_same_v<std::make_unsigned_t<%s>, %s> && std::is_same_v<etl::make_signed_t<%s const>, %s const> && std::is_same_v<etl::make_unsigned_t<%s volatile>, %s volatile>" x ms x mu x ms x mu x ms x mu))
+    [ "char", "signed char", "unsigned char"; "signed char", "signed char", "unsigned char"; "unsigned char", "signed char", "unsigned char";
+      "wchar_t", "int", "unsigned int"; "char8_t", "signed char", "unsigned char"; "char16_t", "short", "unsigned short"; "char32_t", "int", "unsigned int" ];
+  if uchar then begin print_string (Buffer.contents out); exit 0 end;
+  (* ---- the variadic helpers (ModelVariadic.v): packs of 1-5 elements in ALL orders (peak at the front, in the
+          middle, at the end; duplicates) *)
+  let uniq_perms l =
+    let seen = Hashtbl.create 64 in
+    List.filter (fun q -> let key = String.concat "," (List.map cxx q) in
+                  if Hashtbl.mem seen key then false else (Hashtbl.add seen key (); true)) (perms l) in
+  let arr a n = Arr (Arith a, some_n n) in
+  let tc = Arith AChar and ts = Arith AShort and ti = Arith AInt and td = Arith ADouble and tld = Arith ALDouble in
+  let c3 = arr AChar 3 and c40 = arr AChar 40 and i5 = arr AInt 5 and d3 = arr ADouble 3 and s9 = arr AShort 9
+  and ld2 = arr ALDouble 2 and pv = Ptr Void and mpf = MemPtr (c_data, fn Void []) and tc32 = Arith AChar32 in
+  (* the layout table of ModelVariadic.v against the compilers *)
+  List.iter (fun t ->
+      match sizeof_t t, alignof_t t with
+      | Some s, Some a -> obl "specval" "layout table (sizeof / alignof)" (cxx t) (sp "sizeof(%s) == %s && alignof(%s) == %s" (cxx t) (str_of_z s) (cxx t) (str_of_z a))
+      | _ -> ())
+    (List.map (fun a -> Arith a) all_arith @ enum_zoo
+     @ [ Nullptr; pv; Ptr (fn Void []); mpf; MemPtr (c_data, ti); c3; c40; i5; d3; s9; ld2; Arr (c3, some_n 2); Cv (true, false, td); Arr (Cv (true, true, ts), some_n 4) ]);
+  let au_lists =
+    [ [ tc ]; [ tld ]; [ c40 ]; [ ti; tc ]; [ c40; td ]; [ tld; c3 ];
+      [ ti; tc; td ]; [ ts; tc; tld ]; [ c3; c40; tc ]; [ td; td; tc ]; [ tc; tc; tld ]; [ i5; d3; s9 ]; [ pv; c3; ld2 ]; [ mpf; ti; c40 ];
+      [ tc; ts; ti; td ]; [ ti; tc; tld; ts ]; [ c40; i5; d3; tc ]; [ td; tc; td; tc ]; [ s9; tld; c3; pv ];
+      [ tc; ts; ti; td; tld ]; [ c3; i5; c40; d3; s9 ]; [ ti; ti; tld; tc32; tld ] ] in
+  let lens_all = [ 0; 1; 6; 17; 20; 41 ] in
+  List.iter (fun l ->
+      let n = List.length l in
+      List.iteri (fun j q ->
+          if n < 5 || tier <> "quick" || j mod 3 = seed mod 3 then begin
+            let lens = if n <= 3 then lens_all
+                       else if n = 4 then [ 0; List.nth lens_all (1 + (j + seed) mod 5); List.nth lens_all (1 + (j + seed + 2) mod 5) ]
+                       else [ 0; List.nth lens_all (1 + (j + seed) mod 5) ] in
+            List.iter (fun len ->
+                let args = String.concat ", " (string_of_int len :: List.map cxx q) in
+                let key = sp "<%s>" args in
+                let eu = sp "etl::aligned_union<%s>" args and su = sp "std::aligned_union<%s>" args in
+                let et = sp "etl::aligned_union_t<%s>" args and st = sp "std::aligned_union_t<%s>" args in
+                (match aligned_union_m (z_of_int len) q with
+                 | Some ((al, b), sz) ->
+                     obl "corr" "aligned_union" key
+                       (sp "%s::alignment_value == %s && sizeof(%s::storage) == %s && sizeof(%s) == %s && alignof(%s) == %s && std::is_same_v<decltype(%s::alignment_value), etl::size_t const>"
+                          eu (str_of_z al) et (str_of_z b) et (str_of_z sz) et (str_of_z al) eu)
+                 | None -> ());
+                (match aligned_union_spec (z_of_int len) q with
+                 | Some (al, sz) ->
+                     obl "specval" "aligned_union" key
+                       (sp "%s::alignment_value == %s && sizeof(%s) == %s && alignof(%s) == %s" su (str_of_z al) st (str_of_z sz) st (str_of_z al))
+                 | None -> ());
+                (match aligned_union_m (z_of_int len) q, aligned_union_spec (z_of_int len) q with
+                 | Some ((al, _), sz), Some (al', sz') when al = al' && sz = sz' -> ()
+                 | None, None -> ()
+                 | _ -> line [ "M"; "aligned_union"; key; "model"; "spec" ]);
+                obl "prop" "aligned_union" key
+                  (sp "%s::alignment_value == %s::alignment_value && sizeof(%s) == sizeof(%s) && alignof(%s) == alignof(%s) && std::is_trivial_v<%s> && std::is_standard_layout_v<%s>" eu su et st et st et et))
+              lens
+          end) (uniq_perms l)) au_lists;
+  (* class types (layout outside the model): against std only, all orders *)
+  line [ "H"; "namespace zl { struct alignas(16) W { char c[32]; }; struct S3 { char c[3]; }; struct VD { virtual ~VD(); double d; }; struct alignas(32) W32 { char c; }; struct E { }; template <int I, int V> struct BC { static constexpr int value = V; }; }" ];
+  List.iter (fun l ->
+      List.iteri (fun j q ->
+          List.iter (fun len ->
+              let args = String.concat ", " (string_of_int len :: q) in
+              obl "prop" "aligned_union (class types)" (sp "<%s>" args)
+                (sp "etl::aligned_union<%s>::alignment_value == std::aligned_union<%s>::alignment_value && sizeof(etl::aligned_union_t<%s>) == sizeof(std::aligned_union_t<%s>) && alignof(etl::aligned_union_t<%s>) == alignof(std::aligned_union_t<%s>)" args args args args args args))
+            [ 0; List.nth lens_all (1 + (j + seed) mod 5) ]) (perms l))
+    [ [ "int"; "char"; "zl::W" ]; [ "char"; "short"; "zl::W" ]; [ "zl::S3"; "zl::VD"; "zl::E" ]; [ "zl::W32"; "zl::E"; "zl::W"; "double" ];
+      [ "zl::S3"; "char[40]"; "zl::E"; "zl::VD" ] ];
+  (* aligned_storage<Len, Align>: every Len x every power-of-two Align against std (size, alignment) *)
+  List.iter (fun len ->
+      obl "prop" "aligned_storage<Len, Align>" (string_of_int len)
+        (String.concat " && " (List.map (fun al -> sp "sizeof(etl::aligned_storage_t<%d, %d>) == sizeof(std::aligned_storage_t<%d, %d>) && alignof(etl::aligned_storage_t<%d, %d>) == %d" len al len al len al al) [ 1; 2; 4; 8; 16; 32 ])))
+    [ 1; 2; 3; 5; 8; 13; 16; 17; 31; 40; 64; 65 ];
+  (* conjunction / disjunction: every list of 0-5 operands; operand i is zl::BC<i, v> (v = 0: false, otherwise a
+     non-zero int), so the base class identifies WHICH operand was selected; the operands after the selected one
+     are also replaced by a class without `value` (short-circuit: they must not be instantiated) *)
+  let truthy = [| 1; 2; -1; 7; 3 |] in
+  let rec bool_lists n = if n = 0 then [ [] ] else List.concat_map (fun l -> [ false :: l; true :: l ]) (bool_lists (n - 1)) in
+  List.iter (fun n ->
+      List.iter (fun bsl ->
+          let opnd i b = sp "zl::BC<%d, %d>" i (if b then truthy.(i) else 0) in
+          let ops = List.mapi opnd bsl in
+          let key = sp "<%s>" (String.concat ", " (List.map bs bsl)) in
+          List.iter (fun (nm, model, spec, value, dflt) ->
+              let mk ns sel_ =
+                let full = sp "%s::%s<%s>" ns nm (String.concat ", " ops) in
+                let base e = match sel_ with
+                  | None -> sp "std::is_base_of_v<%s::%s_type, %s>" ns dflt e
+                  | Some i -> String.concat " && " (List.mapi (fun j o -> sp "%sstd::is_base_of_v<%s, %s>" (if j = i then "" else "!") o e) ops) in
+                let sc = match sel_ with
+                  | Some i when i < n - 1 ->
+                      let e = sp "%s::%s<%s>" ns nm (String.concat ", " (List.mapi (fun j o -> if j > i then "z::novalue" else o) ops)) in
+                      sp " && std::is_base_of_v<%s, %s> && static_cast<bool>(%s::value) == %s" (List.nth ops i) e e (bs value)
+                  | _ -> "" in
+                sp "%s::%s_v<%s> == %s && static_cast<bool>(%s::value) == %s && %s%s" ns nm (String.concat ", " ops) (bs value) full (bs value) (base full) sc in
+              let o2i = function Some i -> Some (int_of_nat i) | None -> None in
+              obl "corr" nm key (mk "etl" (o2i model));
+              obl "specval" nm key (mk "std" (o2i spec));
+              if model <> spec then line [ "M"; nm; key; "model"; "spec" ])
+            [ "conjunction", conjunction_m bsl, conjunction_spec bsl, conjunction_value_m bsl, "true";
+              "disjunction", disjunction_m bsl, disjunction_spec bsl, disjunction_value_m bsl, "false" ])
+        (bool_lists n)) [ 0; 1; 2; 3; 4; 5 ];
+  (* n-ary common_type: lists of 3 and 4 types in all orders against the left fold of ModelVariadic.v / std *)
+  let ar a = Arith a in
+  List.iter (fun l ->
+      List.iter (fun q ->
+          let args = String.concat ", " (List.map cxx q) in
+          let key = sp "<%s>" args in
+          (match common_type_n_m q with
+           | Some x -> obl "corr" "common_type (n-ary)" key (sp "std::is_same_v<etl::common_type_t<%s>, %s> && std::is_same_v<typename etl::common_type<%s>::type, %s>" args (cxx x) args (cxx x))
+           | None -> ());
+          (match std_common_type_n q with
+           | Some x -> obl "specval" "common_type (n-ary)" key (sp "std::is_same_v<std::common_type_t<%s>, %s>" args (cxx x))
+           | None -> ());
+          (match common_type_n_m q, std_common_type_n q with
+           | Some x, Some y when cty_eqb x y -> ()
+           | None, None -> ()
+           | _ -> line [ "M"; "common_type (n-ary)"; key; "model"; "spec" ]);
+          obl "prop" "common_type (n-ary)" key (sp "z::common_type_agrees<%s>" args))
+        (uniq_perms l))
+    [ [ ar AChar; ar AULong; ar AFloat ]; [ ar AInt; ar AUInt; ar ALong ]; [ ar AShort; ar AUChar; ar ABool ]; [ ar AChar32; ar AInt; ar ALLong ];
+      [ ar ALDouble; ar AFloat; ar AULLong ]; [ ar AWChar; ar AChar16; ar AShort ]; [ LRef (Cv (true, false, ar AChar)); ar AULong; RRef (ar AFloat) ];
+      [ Ptr int_; Ptr int_; Cv (true, false, Ptr int_) ]; [ ar AUInt; ar ALong; ar AInt ];
+      [ ar ABool; ar AChar; ar AUShort; ar ADouble ]; [ ar AInt; ar ALong; ar AULLong; ar AFloat ]; [ ar AChar8; ar AChar16; ar AChar32; ar AWChar ];
+      [ ar AUInt; ar AInt; ar AUInt; ar ALLong ]; [ ar AUShort ]; [ ar AFloat; Cv (false, true, ar AFloat) ] ];
   (* ---- smallest_size_t *)
   List.iter (fun s ->
     let n = z_of_big (Big.of_string s) in
@@ -925,9 +1116,9 @@ let run_case op t =
         match Hashtbl.find_opt spec_cache key with
         | Some s -> s
         | None ->
-            let s = match limits_spec a m with Some v -> lval_s v | None -> "na" in
+            let s = match limits_spec_p !plat a m with Some v -> lval_s v | None -> "na" in
             Hashtbl.add spec_cache key s; s in
-      (lval_s (limits_m a m), s)
+      (lval_s (limits_mp !plat a m), s)
   | "ratio" ->
       let n = next_z t in let d = next_z t in
       (r2 (ratio_m n d), r2 (ratio_spec n d))
